@@ -1,3 +1,4 @@
+import Proofs.EcdsaInstToyRec
 import Proofs.EcdsaInstNamed
 import Proofs.EcdsaInstNt
 import Proofs.EcdsaInstRecover
@@ -98,7 +99,11 @@ section OnCurve
 open GroupInterface
 variable {p : ℕ} [hp : Fact p.Prime] {a b : ℤ}
 
-theorem recovery_on_curve (c : Affine.Crv) (C : Ctx p a b) (M : OnCurve.MatchesRec c C)
+/-- **recovery on the real point model, any cofactor** — only `OnCurve.Matches` is needed (NOT #E(𝔽_p) = n): for an
+honest signature the two points the code constructs from `r` are `±k•G`, members of ⟨G⟩ whatever the cofactor
+(`OnCurve.lift_point`), and the extra `n * Q == INFINITY` test of `Public_key` passes because every candidate lies in
+⟨G⟩.  Square root: nt's model of `square_root_mod_prime` (every odd prime, including the Cipolla branch used by P-224). -/
+theorem recovery_honest (c : Affine.Crv) (C : Ctx p a b) (M : OnCurve.Matches c C)
     (d e k r s x0 : ℤ) (H : Honest (OnCurve.ops c) C.G OnCurve.xcOf d e k r s x0) :
     ∃ l, recoverPublicKeys (OnCurve.ops c) NT.squareRootModPrime r s e = .ok l ∧ l.length ≤ 2 ∧
       (∃ A ∈ l, OnCurve.Valid C A ∧ OnCurve.den C A = d • C.G) ∧
@@ -110,6 +115,29 @@ theorem recovery_on_curve (c : Affine.Crv) (C : Ctx p a b) (M : OnCurve.MatchesR
   obtain ⟨l, hl, hc⟩ := recovered_contains_Q RC _ hsq d e k r s x0 H
   exact ⟨l, hl, recovered_length_le_two _ _ r s e l hl, hc,
     fun A hA => (recovered_all_verify RC _ hsq d e k r s x0 H l hl A hA).2.2.2⟩
+
+/-- the earlier formulation (hypothesis bundle with cofactor 1), kept for its users; the cofactor part is not used -/
+theorem recovery_on_curve (c : Affine.Crv) (C : Ctx p a b) (M : OnCurve.MatchesRec c C)
+    (d e k r s x0 : ℤ) (H : Honest (OnCurve.ops c) C.G OnCurve.xcOf d e k r s x0) :
+    ∃ l, recoverPublicKeys (OnCurve.ops c) NT.squareRootModPrime r s e = .ok l ∧ l.length ≤ 2 ∧
+      (∃ A ∈ l, OnCurve.Valid C A ∧ OnCurve.den C A = d • C.G) ∧
+      ∀ A ∈ l, verifies (OnCurve.ops c) A e r s = .ok true :=
+  recovery_honest c C M.toMatches d e k r s x0 H
+
+/-! #### a closed instance on the real point model (kernel-evaluated; no hypothesis left)
+Toy curve y² = x³ + x + 6 over 𝔽₁₁, G = (2,7), n = 13 (driver token `11,1,6,2,7,13,1,j`): secret d = 3 (Q = 3G = (8,3)),
+e = 5, nonce k = 2 (2G = (5,2), x₀ = 5 < 13), signature (r, s) = (5, 10).  `Honest` holds, so `recovery_honest`
+applies; and the model's answer, evaluated: two `PointJacobi` objects whose `x()`, `y()` are (8,3) = Q and (3,5). -/
+example : ∃ C : Ctx 11 1 6, OnCurve.Matches OnCurve.toyCrv C ∧
+    Honest (OnCurve.ops OnCurve.toyCrv) C.G OnCurve.xcOf 3 5 2 5 10 5 := OnCurve.toy_honest
+
+set_option maxRecDepth 4000 in
+example : sign (OnCurve.ops OnCurve.toyCrv) 3 5 2 = .ok (5, 10)
+    ∧ (recoverPublicKeys (OnCurve.ops OnCurve.toyCrv) NT.squareRootModPrime 5 10 5).map
+        (fun l => l.map (fun A => ((OnCurve.ops OnCurve.toyCrv).xOf A, (OnCurve.ops OnCurve.toyCrv).yOf A)))
+      = .ok [(.ok 8, .ok 3), (.ok 3, .ok 5)]
+    ∧ fromSecretExponent (OnCurve.ops OnCurve.toyCrv) 3 = .ok (.jac ⟨OnCurve.crvOf OnCurve.toyCrv, 8, 3, 1, some 13, false⟩) := by
+  decide +kernel
 
 end OnCurve
 
